@@ -314,7 +314,13 @@ def servo_write(cfg, kind):
         s = mk_servo(hw, cfg)
         a0, p0 = s._current_angle, s._current_pulse
         mina, maxa, minp, maxp = servo_bounds(s)
-        v = sym_float("angle") if kind == "float" else sym_int("angle", -(1 << 20), 1 << 20)
+        if kind == "float":
+            v = sym_float("angle")
+        elif kind == "grid":
+            # every angle on a 1/8-degree grid from -37.5 to 218.4 (an 11-bit variable: exact in binary64)
+            v = (pysym.eng().new_input("sym", "angle8", 32, 0, 2047) - 300) / 8.0
+        else:
+            v = sym_int("angle", -(1 << 20), 1 << 20)
         try:
             s.write(v)
         except ValueError:
@@ -341,7 +347,13 @@ def servo_write_us(cfg, kind):
         s = mk_servo(hw, cfg)
         a0, p0 = s._current_angle, s._current_pulse
         mina, maxa, minp, maxp = servo_bounds(s)
-        v = sym_float("pulse") if kind == "float" else sym_int("pulse", -(1 << 20), 1 << 20)
+        if kind == "float":
+            v = sym_float("pulse")
+        elif kind == "grid":
+            # every pulse width on a half-microsecond grid from 400 to 2447.5 (a 12-bit variable)
+            v = pysym.eng().new_input("sym", "pulse2", 32, 0, 4095) / 2.0 + 400
+        else:
+            v = sym_int("pulse", -(1 << 20), 1 << 20)
         try:
             s.write_us(v)
         except ValueError:
@@ -562,7 +574,7 @@ def obligations(tier):
     obs.append(("RGBLed.blink", rgb_blink, {}))
     obs.append(("Servo.__init__", servo_ctor, {}))
     for cfg in SERVO_CONFIGS:
-        for k in ("float", "int"):
+        for k in ("float", "grid", "int"):
             obs.append((f"Servo.write[{cfg},{k}]", servo_write(cfg, k), {"timeout_ms": 120000}))
             obs.append((f"Servo.write_us[{cfg},{k}]", servo_write_us(cfg, k), {"timeout_ms": 120000}))
     for mode0 in ("coast", "brake", "drive"):
